@@ -163,6 +163,11 @@ def config_inputs():
             for s, d in ((0, 1), (7, 29)):
                 out.append({"unit": u, "ui": ui, "start": s, "dur": d, "rate": 4, "flops": 2, "bw": 3,
                             "hotrate": 5, "coldrate": -1})
+            # machine speeds that are not whole numbers per second (flops + 1/2, bandwidth + 1/2)
+            out.append({"unit": u, "ui": ui, "start": 3, "dur": 5, "rate": 1, "flops": 2, "bw": 1,
+                        "hotrate": 5, "coldrate": 2, "half": True})
+    for x in out:
+        x.setdefault("half", False)
     return out
 
 
@@ -175,7 +180,8 @@ def run_config(x, wd):
                                      "pipelines": {"o": {"workflow": "wf.json", "ingest_demand": 2}},
                                      "observations": [{"name": "o", "start": raw_start, "duration": raw_dur,
                                                        "instrument_demand": 3, "data_product_rate": x["rate"]}]}},
-        "cluster": {"header": {}, "system": {"resources": {"m0": {"flops": x["flops"], "compute_bandwidth": x["bw"]}},
+        "cluster": {"header": {}, "system": {"resources": {"m0": {"flops": x["flops"] + (0.5 if x.get("half") else 0),
+                                                                  "compute_bandwidth": x["bw"] + (0.5 if x.get("half") else 0)}},
                                              "system_bandwidth": 4}},
         "buffer": {"hot": {"capacity": 500, "max_ingest_rate": x["hotrate"]},
                    "cold": {"capacity": 700, "max_data_rate": x["coldrate"]}},
@@ -218,7 +224,8 @@ def _parse_view(c, raw_start, raw_dur):
                     "rate": _as_int(o.ingest_data_rate, "rate"), "demand": int(o.demand)},
             "total_arrays": int(arrays), "max_ingest": int(max_ingest),
             "ingest_demand": int(pipelines["o"]["ingest_demand"]),
-            "mach": {"cpu": _as_int(machines[0].cpu, "cpu"), "bw": _as_int(machines[0].bandwidth, "bw")},
+            # speeds are logged doubled (they may be odd multiples of one half)
+            "mach": {"cpu2": _as_int(2 * machines[0].cpu, "cpu"), "bw2": _as_int(2 * machines[0].bandwidth, "bw")},
             "sysbw": _as_int(sysbw, "sysbw"),
             "hot": {"rate": _as_int(hot[0].max_ingest_data_rate, "hot rate"), "cap": int(hot[0].total_capacity)},
             "cold": {"rate": _as_int(cold[0].max_data_rate, "cold rate"), "cap": int(cold[0].total_capacity)},
